@@ -188,6 +188,7 @@ func processFile(filePath string, ctxt *processors.Context, checkOnly bool) erro
 		line, indent, err = processLine(line, indent)
 		if err != nil {
 			logger.Error().Err(err).Msgf("failed to format %s", filename)
+			return err
 		}
 		lines = append(lines, string(line))
 	}
@@ -248,7 +249,7 @@ func processLine(line []byte, indent int) ([]byte, int, error) {
 		nextIndent = blockIndent + 1
 	} else if blockEndRegex.Match(line) {
 		if blockIndent == 0 {
-			return nil, 0, errors.New("unbalanced processor block")
+			return line, indent, errors.New("unbalanced processor block")
 		}
 		blockIndent = indent - 1
 		nextIndent = blockIndent
